@@ -22,7 +22,7 @@ CHECKS = {
     note=TB + "; clang's x86-64 SysV va_arg lowering; libc directive grammars as modelled in sa/checks/c09.py; 21 delegating entry points are recorded known findings (unsound literal \"%n\" pre-scan, reproduced)"),
  "C19": dict(
     engine="derive",
-    technique="taint analysis over SSA (sources: loads from either compared region; sinks: branch/select conditions, addresses, division operands, call arguments) at -O0 and, thorough, at -O1/-O2/-O3 IR; relational value-set abstract interpretation of the comparison loop (byte pairs abstracted to <, =, >; accumulators followed to a fixpoint with the sign of the first difference as ghost)",
+    technique="taint analysis over SSA (sources: loads from either compared region; sinks: branch/select conditions, addresses, division operands, call arguments) at -O0 and, thorough, at -O1/-O2/-O3 IR; relational value-set abstract interpretation of the comparison loop (byte pairs abstracted to <, =, >; accumulators followed to a fixpoint with the sign of the first difference as ghost); significant-bit-width analysis of secret-derived values (no truncation below their width on the way to the verdict)",
     category="other",
     text="Decides the data-independence clause for all contents and all n: no instruction whose execution or address depends on a byte of either region exists in the two functions, at the IR the compiler actually optimises (vectorised forms included in the thorough tier). The result clause is decided by abstract interpretation over the finite set of byte-pair relations: from every reachable abstract state of the loop accumulators the returned value is 0 iff no pair differed (timingsafe_bcmp) / has the sign of the first differing pair (timingsafe_memcmp), for every length and content.",
     design_ref="DESIGN.md §4 C19",
@@ -50,14 +50,14 @@ CHECKS = {
     note=TB + "; only the context/key-forwarding clause is claimed"),
  "C18": dict(
     engine="derive",
-    technique="volatile/barrier must-follow path rule over the IR of the 7 erase entry points and their primitives; byte-lane abstract interpretation of the fill word (which byte of the value parameter each stored byte holds); quotient/remainder agreement of the word/tail count split; thorough: static inspection of LTO-compiled client machine code (gcc-12, clang-14, -O0..-O3)",
+    technique="volatile/barrier must-follow path rule over the IR of the 7 erase entry points and their primitives; byte-lane abstract interpretation of the fill word (which byte of the value parameter each stored byte holds); quotient/remainder agreement of the word/tail count split; thorough: static inspection of LTO-compiled client machine code (gcc-12, clang-14, -O0..-O3); erase-length clause (callee unit x length argument = element size x the entry point's own count)",
     category="other",
     text="Quick decides the mechanism C offers against dead-store elimination: every write into dest that can be followed by a success return is volatile, or barrier-followed on all paths, or done by a callee with that property. Two value/extent clauses of 'the n addressed bytes hold the fill value' are decided structurally for the fill primitives: every one of their 95 stores into dest holds the value parameter's bytes replicated over the store width (byte-lane domain: zext/sext/shift/or/and/phi; a sign-extended or missing lane is reported), the entry points hand their own value parameter (or 0) down, and where the byte count is split into words and a tail, count >> k and count & (2^k - 1) are taken from the same value. Thorough additionally compiles 448 client programs whose erased buffer is dead (stack / heap-then-free) together with the library's current sources and checks in the disassembly that the erase survived; nothing is executed.",
     design_ref="DESIGN.md §4 C18",
     note=TB + "; compilers honour volatile and asm/fence barriers; 'every optimisation level and every client' is a quantifier over compilers that the thorough tier samples with the two installed ones; the clause 'no more than the requested bytes are changed' is otherwise C01's (the unrolled word loops themselves are outside its reach)"),
  "C05": dict(
     engine="pathflags",
-    technique="path-sensitive abstract interpretation (symbolic store, linear path facts decided by Fourier-Motzkin, opaque loop phis, bounded inlining of helpers and nested exported callees) with a handler-count/code typestate; return conventions per function",
+    technique="path-sensitive abstract interpretation (symbolic store, linear path facts decided by Fourier-Motzkin, opaque loop phis, bounded inlining of helpers and nested exported callees) with a handler-count/code typestate; return conventions per function; null-order rule over unsimplified (mem2reg-only) SSA: no dereference of a pointer parameter dominates that parameter's own null test",
     category="other",
     text="For every exported function all paths are covered at once: at each return the number of constraint-handler invocations on the path and the code passed are compared with the returned indication (errno_t, negated int, EOF, NULL+*errp, false, 0). Nested calls are inlined so that whether they can report is decided from the guards on the path, which is what separates a real double report from a quiet nested call. Which inputs are violations is taken from the code's own checks. Ordering clause: in the 102 functions with a structurally recognised RSIZE limit check (size > K whose taken side reports), no load, store or libc call reaches dest/src/str at a path state where size > K is still possible (clearing inside the error helpers, dest == NULL length queries and sizes bounded by a known object size are exempt). Status discipline of the formatting engine: the result of each of the 54 calls of the output callback / of the engine's status-returning routines is tested for < 0 or returned (callback) or at least used (routines), so a 'does not fit' reported by the callback cannot be dropped.",
     design_ref="DESIGN.md §3.3, §4 C05",
@@ -85,7 +85,7 @@ CHECKS = {
     note=TB + "; allocator contract (NULL on failure, realloc keeps the old block on failure); a callee receiving a block is assumed to dereference it; 25 triaged known findings (12 unchecked allocations, leaks on the wcsnorm error exits and the %ls failure path); 'an allocation site runs again while its block is owned' is a verdict only at the fine precision level - wcsnorm_reorder_s/compose_s are explored at the coarse level, where it is listed as not decided (two earlier entries of that kind were false alarms and were removed)"),
  "C01": dict(
     engine="capcheck",
-    technique="relational abstract interpretation of the cursor/budget idiom: linear loop equalities (null space of header-phi increments), lock-step and range candidates proved by induction (Houdini), dominating branch guards, Fourier-Motzkin entailment of 0 <= off and off + size <= declared capacity for every write",
+    technique="relational abstract interpretation of the cursor/budget idiom: linear loop equalities (null space of header-phi increments), lock-step and range candidates proved by induction (Houdini), dominating branch guards, Fourier-Motzkin entailment of 0 <= off and off + size <= declared capacity for every write; path-by-path cursor-and-count accounting of the 91 loops that test their remaining count (room established before each store / bounded block write; cursor advance = count decrease)",
     category="other",
     text="For every size relation and content at once: each store, memset/memcpy/memmove, libc writer and clearing/moving helper call in all 243 function definitions carries the obligation that the written range lies inside the buffer's declared capacity (caller's dmax under the truthfulness premise, local arrays, globals). 497 of 632 obligations are discharged (constant-offset accesses the relational domain cannot settle because of correlated branches get a path-sensitive second opinion); undischarged ones are known findings (40 + 5 no-slack, genuine), listed reach limits (95 obligations in functions the domain cannot treat: unrolled primitives, smoothsort, Unicode tables, second-pass scans) or violations. The truthfulness premise is followed to the API boundary: for the 113 public wrapper macros (preprocessor macro table of the public headers against the callee's parameter names) every object-size parameter receives BOS() of the macro parameter that is passed as the operand it describes, and same-named parameters are forwarded unswapped. Both object-size branches are in the IR and covered; the thorough tier repeats the analysis on the no-slack configuration (an access identical to one of the default build is the same finding).",
     design_ref="DESIGN.md §3.2, §4 C01",
@@ -106,7 +106,7 @@ CHECKS = {
     note=TB + "; object sizes unknown to the library and byte sizes that are multiples of the element size are assumed for clause (a); identical-pointer acceptance is taken from the table in sa/checks/c07.py"),
  "C08": dict(
     engine="capcheck",
-    technique="relational abstract interpretation: for every zeroing memset and every zero-only store loop into a caller buffer the equality 'start offset + length == declared size' is entailed in both directions from the loop invariants",
+    technique="relational abstract interpretation: for every zeroing memset and every zero-only store loop into a caller buffer the equality 'start offset + length == declared size' is entailed in both directions from the loop invariants; cursor-and-count lockstep at every back edge of the loops that test their remaining count (a count running ahead of its cursor ends the final clearing early)",
     category="other",
     text="Decides a necessary structural clause for all result lengths and all dmax (including both sides of the 0x20 memset/loop switch, since both forms are obligations): slack clearing ends exactly at dest + dmax (a stale counter, a unit slip - elements for bytes - or a loop that stops early breaks the equality), and it starts without a gap: at the buffer start or not behind the end of something the function wrote (a store, or the element count returned by a converter/formatter); a start a constant distance behind every such write is reported, starts computed from a reloaded value are not decided. Third clause (path engine, destination typestate): on every success return of the 28 string producers on which the call stored into dest, dest has been zeroed up to dest+dmax since the last non-zero store - by a memset or zero-only loop that the end clause certified, a full clearing, or a nested producer's own success; seven functions that returned success without any clearing were repaired (fix: c47f74e); the clause also covers the fill family strset_s/strnset_s/strzero_s, where an exit on which the remaining capacity reached zero has no slack (strnset_s repaired, fix: 94b27df). That a terminator is present on every success path is C03 (thorough: no-slack build); that the elements in front are exactly the result is value-level (C06) and not decided.",
     design_ref="DESIGN.md §3.2, §4 C08",
